@@ -880,9 +880,35 @@ def scene_wf(which):
     return (which, f)
 
 
+EFFECT_EDGE = "effect/object-added-while-visiting-child-k-of-n-is-the-round-cone-of-the-edge-(n,child-k)-or-the-containing-sphere-when-nested"
+
+
+def row_is(row, exp):
+    return z3.And(*[to_z3(g, kd if kd != "ref" else "int") == e for g, e, kd in zip(row, exp, X.SCENE_ROW_KINDS)])
+
+
+def sc_add_hook(E, scene, row):
+    """EFFECT obligation at every scene.add_object(...) of _get_scene (its closure `leave` runs on node handles of the tree): the object
+    that reaches the scene while child k of node n is visited is the one the property names for the edge (n, child k).  Externally
+    meaningful (what the rasteriser will draw), so a change that adds another object is a failed obligation of the property, not an
+    incomplete proof; the loop invariants (internal) only carry it to the postcondition."""
+    from swcgeom.core.tree import Tree
+
+    v = E.visible_vars()
+    node, ch, k = v.get("n"), v.get("children"), v.get("_k0")
+    mat = v.get("material")
+    ok = False
+    if isinstance(node, Obj) and node.cls is Tree.Node and getattr(ch, "cols", None) is not None and k is not None and hasattr(mat, "z"):
+        t, p, c = node.fields["attach"], to_z3(node.fields["idx"], "int"), z3.Select(ch.cols[0], to_z3(k, "int"))
+        sc_nested_def(E, t, p, c)
+        ok = row_is(row, sc_expected(t, p, c, mat.z))
+    E.prove(f"{E.cur_contract.short}/{EFFECT_EDGE}", ok, "postcondition")
+
+
 def sc_setup(S):
     from contracts.common import nof, sym_tree
 
+    S.eng.ghost["scene_add_hook"] = sc_add_hook
     t = sym_tree(S, "t", frozen=True)
     G = Obj(GhostEdgeMap, dict(at=SArr(z3.K(I_, z3.IntVal(-1)), nof(t), "int", name="at"), who=SArr(z3.K(I_, z3.IntVal(-1)), nof(t), "int", name="who")))
     return dict(self=tis_obj(S), x=t, G20=G)
@@ -1022,21 +1048,25 @@ def sc_loop(which):
     return f
 
 
-def sc_loop_hint(E, vars):
+def sc_loop_hint(E, vars, back=1):
     """proof step: the code's test  norm(a-b) <= |ra-rb|  is the spec's square-root-free test"""
     from contracts.common import col
 
-    c, node = vars.get("c"), vars.get("n")
-    if not (isinstance(c, Obj) and isinstance(node, Obj)):
+    # the child being visited is children[_k0] (the ghost index of the loop), whatever the loop variable is called
+    node, ch, k = vars.get("n"), vars.get("children"), vars.get("_k0")
+    if not isinstance(node, Obj) or getattr(ch, "cols", None) is None or k is None:
         return
     t = node.fields["attach"]
     r = col(t, "r").arr
-    d = z3.Select(r, to_z3(node.fields["idx"], "int")) - z3.Select(r, to_z3(c.fields["idx"], "int"))
-    sc_nested_def(E, t, to_z3(node.fields["idx"], "int"), to_z3(c.fields["idx"], "int"))
-    for key, y in E.ghost.items():
-        if isinstance(key, tuple) and key and key[0] == "sqrt":
-            _lemmas.use(E, "nonneg-below-abs-iff-square-below-square", y.z, d)
-            _lemmas.use(E, "nonneg-below-abs-iff-square-below-square", y.z, -d)
+    # (at an add_object call _k0 is the child being visited: back = 0; when the invariant is re-proved it has already been advanced: back = 1)
+    for kk in (to_z3(k, "int") - back,):
+        cz = z3.Select(ch.cols[0], z3.simplify(kk))
+        d = z3.Select(r, to_z3(node.fields["idx"], "int")) - z3.Select(r, cz)
+        sc_nested_def(E, t, to_z3(node.fields["idx"], "int"), cz)
+        for key, y in list(E.ghost.items()):
+            if isinstance(key, tuple) and key and key[0] == "sqrt":
+                _lemmas.use(E, "nonneg-below-abs-iff-square-below-square", y.z, d)
+                _lemmas.use(E, "nonneg-below-abs-iff-square-below-square", y.z, -d)
 
 
 def sc_post(which):
@@ -1079,7 +1109,7 @@ def reg_scene(R, scene_result):
           inlined_loops={LV: {0: dict(invariant=[("one-object-per-child-so-far", sc_loop("count")), ("earlier-objects-untouched", sc_loop("kept")),
                                                  ("object-j-is-the-edge-(n,child-j)", sc_loop("edges"))],
                                       modifies=["scene.objects"])}},
-          options=dict(traverse_rule=rule, hints={"loop0/preserved/object-j-is-the-edge-(n,child-j)": sc_loop_hint}),
+          options=dict(traverse_rule=rule, hints={"loop0/preserved/object-j-is-the-edge-(n,child-j)": sc_loop_hint, EFFECT_EDGE: lambda E, vars: sc_loop_hint(E, vars, back=0)}),
           notes="traverse client rule; J: the scene's objects are in bijection (ghost at / who) with the edges below the nodes left so far; "
                 "the leave step runs the REAL closure on a node with a symbolic number of children (its loop cut by the invariants above)")
 
@@ -1127,6 +1157,13 @@ def _add_object(eng, recv, args, kwargs):
     sdf, mat = obj.params
     row = tuple([X.SDF_TAG[sdf.kind]] + list(sdf.params) + [Sym(mat.z, "ref")])
     log = eng.spec_extra["scene_objects"]
+    # EFFECT obligation (see sc_add_hook): the object added while child k of n is visited is the property's object of the edge (n, child k)
+    v = eng.visible_vars()
+    node, ch, k = v.get("n"), v.get("children"), v.get("_k0")
+    ok = False
+    if isinstance(node, Opaque) and getattr(ch, "cols", None) is not None and k is not None:
+        ok = row_is(row, lv_expected(node.z, z3.Select(ch.cols[0], to_z3(k, "int")), eng.spec_extra["material"].z))
+    eng.prove(f"{eng.cur_contract.short}/{EFFECT_EDGE}", ok, "postcondition")
     eng.models.LIST_METHODS["append"](eng, log, [row], {})
     return None
 
@@ -1186,16 +1223,17 @@ def _le_abs_sq(y, t):
     return z3.Implies(y >= 0, (y <= z3.If(t >= 0, t, -t)) == (y * y <= t * t))
 
 
-def lv_hint(E, vars):
+def lv_hint(E, vars, back=1):
     """proof step: the code's test  norm(a-b) <= |ra-rb|  is the spec's square-root-free test"""
-    c = vars.get("c")
-    if not isinstance(c, Opaque):
+    node, ch, k = vars.get("n"), vars.get("children"), vars.get("_k0")
+    if not isinstance(node, Opaque) or getattr(ch, "cols", None) is None or k is None:
         return
-    roots = [y for k, y in E.ghost.items() if isinstance(k, tuple) and k and k[0] == "sqrt"]
-    t = NR(vars["n"].z) - NR(c.z)
-    for y in roots:
-        _lemmas.use(E, "nonneg-below-abs-iff-square-below-square", y.z, t)
-        _lemmas.use(E, "nonneg-below-abs-iff-square-below-square", y.z, -t)
+    roots = [y for k_, y in E.ghost.items() if isinstance(k_, tuple) and k_ and k_[0] == "sqrt"]
+    for kk in (to_z3(k, "int") - back,):  # at an add_object call _k0 is the child being visited (back = 0); at `preserved` it has been advanced (back = 1)
+        t = NR(node.z) - NR(z3.Select(ch.cols[0], z3.simplify(kk)))
+        for y in roots:
+            _lemmas.use(E, "nonneg-below-abs-iff-square-below-square", y.z, t)
+            _lemmas.use(E, "nonneg-below-abs-iff-square-below-square", y.z, -t)
 
 
 def reg_leave(R):
@@ -1203,7 +1241,7 @@ def reg_leave(R):
         f"{TR}:ToImageStack._get_scene.<locals>.leave",
         prop="C20",
         variants={"any-number-of-children": lv_setup},
-        options=dict(hints={"loop0/preserved/object-j-is-the-edge-(n,child-j)": lv_hint}),
+        options=dict(hints={"loop0/preserved/object-j-is-the-edge-(n,child-j)": lv_hint, EFFECT_EDGE: lambda E, vars: lv_hint(E, vars, back=0)}),
         loops={0: dict(invariant=[("one-object-per-child-so-far", lv_clause("count")), ("earlier-objects-untouched", lv_clause("kept")),
                                   ("object-j-is-the-edge-(n,child-j)", lv_clause("edges"))],
                        modifies=["scene_objects"])},
